@@ -324,5 +324,29 @@ func TestDnsAdversarial(t *testing.T) {
 			report("fanout", "0", fmt.Sprintf("took %v", d), msg[:64])
 		}
 	}
+	// a name of thousands of labels (the decoder does not cap names) referenced by hundreds of questions: the cost per
+	// reference must stay linear in the name - "a small polynomial of the length" is at most quadratic here
+	for _, L := range []int{1000, 3000} {
+		m := []byte{0, 0, 0x81, 0x80, 0x01, 0x2c, 0, 0, 0, 0, 0, 0} // 300 questions
+		for i := 0; i < L; i++ {
+			m = append(m, 1, 'y')
+		}
+		m = append(m, 0, 0, 1, 0, 1)
+		for i := 0; i < 299; i++ {
+			m = append(m, 0xc0, 12, 0, 1, 0, 1)
+		}
+		nEval++
+		dm, diff, alloc, d := decodeGuarded(m)
+		_ = dm
+		n := uint64(len(m))
+		switch {
+		case diff != "":
+			report("manylabels", fmt.Sprint(L), diff, m[:64])
+		case alloc > 4*n*n+(1<<20):
+			report("manylabels", fmt.Sprint(L), fmt.Sprintf("decoding %d bytes (one %d-label name, 300 references) allocated %d bytes: more than 4 n^2", len(m), L, alloc), m[:64])
+		case d > 2*time.Second:
+			report("manylabels", fmt.Sprint(L), fmt.Sprintf("decoding %d bytes took %v", len(m), d), m[:64])
+		}
+	}
 	w.Write(Ev{"summary": true, "evaluations": nEval, "resolver_runs": resolverRuns, "bad": bad})
 }
